@@ -41,12 +41,17 @@ func GenKeys(t *rapid.T, min, max int, exotic bool) []string {
 				// a long key: 256 bytes ... 1 MiB (lengths are BYTES; the gRPC binding cannot carry a request
 				// above its 4 MiB message limit, so keys stay well below that - see DESIGN 10.2)
 				rep := rapid.SampledFrom([]string{"x", "é", "/", "😀"}).Draw(t, "rep")
-				n := rapid.OneOf(rapid.IntRange(256, 4096), rapid.SampledFrom([]int{4089, 4096, 5000, 20000, 60000, 60000, 1048600})).Draw(t, "replen")
+				n := rapid.OneOf(rapid.IntRange(60, 300), rapid.IntRange(256, 4096), rapid.SampledFrom([]int{4089, 4096, 5000, 20000, 60000, 60000, 1048600})).Draw(t, "replen")
 				cnt := n / len(rep)
 				if cnt < 1 {
 					cnt = 1
 				}
 				k = strings.Repeat(rep, cnt)
+				// multi-byte characters at every byte offset: a short ASCII prefix shifts them (a text that is cut
+				// at a fixed byte count then ends inside a character)
+				if len(rep) > 1 {
+					k = strings.Repeat("k", rapid.IntRange(0, 3).Draw(t, "shift")) + k
+				}
 			case 1:
 				k = rapid.StringN(1, 12, -1).Draw(t, "anyString") // any valid UTF-8
 			default:
